@@ -1936,7 +1936,10 @@ class Exec(Path):
                 self.env[wname] = self.make_symbolic(f"{info.name}_{wname}", wtype)
                 # ... and ghost locals of the caller (its own postcondition may mention them as its witnesses in turn)
                 if len(self.frames) >= 2:
-                    self.frames[-2].setdefault(wname, self.env[wname])
+                    exported = self.ghost.setdefault("exported_witnesses", set())
+                    if wname not in self.frames[-2] or (id(self.frames[-2]), wname) in exported:
+                        self.frames[-2][wname] = self.env[wname]         # a later call's witnesses replace an earlier call's
+                        exported.add((id(self.frames[-2]), wname))
             result = self.make_symbolic("result_" + info.name, c.returns) if c.returns else VNone()
             self.env["result"] = result
             saved_old = self.old
